@@ -36,7 +36,18 @@ import (
 	"github.com/linkedin/Burrow/core/protocol"
 )
 
-var vpPatterns = []string{"", "^a", "b$", ".*", "^$", "^(a|b)", "x"}
+// PIPE's own pattern pool (mirrors checks/pipegen.py PATTERNS and ocaml/drv_pipeline.ml): setting 0 = the list key is
+// absent, 1..6 = a pattern, 7 = the key is PRESENT with the empty string as its value (no list: the modules test != "")
+var vpPatterns = []string{"", "^a", "b$", ".*", "^$", "^(a|b)", "x", ""}
+
+func vpSetList(key string, idx int) {
+	if idx < 0 || idx >= len(vpPatterns) {
+		panic("list setting " + strconv.Itoa(idx) + " outside the pipeline probe's pattern pool")
+	}
+	if idx != 0 {
+		viper.Set(key, vpPatterns[idx])
+	}
+}
 
 type vpToks struct {
 	f []string
@@ -230,12 +241,8 @@ func vpCase(t *vpToks) (res string) {
 	viper.Set("storage.verif.expire-group", expire)
 	viper.Set("storage.verif.min-distance", mindist)
 	viper.Set("storage.verif.workers", 1)
-	if sallow != 0 {
-		viper.Set("storage.verif.group-allowlist", vpPatterns[sallow])
-	}
-	if sdeny != 0 {
-		viper.Set("storage.verif.group-denylist", vpPatterns[sdeny])
-	}
+	vpSetList("storage.verif.group-allowlist", sallow)
+	vpSetList("storage.verif.group-denylist", sdeny)
 	viper.Set("evaluator.verif.class-name", "caching")
 	viper.Set("evaluator.verif.expire-cache", 0)
 	viper.Set("evaluator.verif.minimum-complete", float64(minComplete))
@@ -249,12 +256,8 @@ func vpCase(t *vpToks) (res string) {
 		viper.Set("consumer."+r+".class-name", "kafka")
 		viper.Set("consumer."+r+".servers", []string{"broker1.example.com:1234"})
 		viper.Set("consumer."+r+".cluster", n)
-		if c.allow != 0 {
-			viper.Set("consumer."+r+".group-allowlist", vpPatterns[c.allow])
-		}
-		if c.deny != 0 {
-			viper.Set("consumer."+r+".group-denylist", vpPatterns[c.deny])
-		}
+		vpSetList("consumer."+r+".group-allowlist", c.allow)
+		vpSetList("consumer."+r+".group-denylist", c.deny)
 	}
 
 	s := &vpSys{readers: map[int64]*KafkaClient{}}
